@@ -91,6 +91,12 @@ CHECKS["C08"] = dict(
     text="TLC explores every attacker strategy (forge under known or guessed codes with its own sessions' keying material, replay of the current and an older session, reflection, role swap, alteration of version / role / nonce / mac, truncation, silence) in four topologies for every pair of codes and every set of codes the attacker knows, and checks that an honest end accepts only a peer that holds its code on its own TLS session, that two honest ends accept each other, that an altered message is rejected and that a connection is used only after a successful handshake (three switches are refuted as controls). Each behaviour is executed over real QUIC/TLS sessions with the real handshake code at the honest ends; the real extra-connection loops are run against scripted peers.",
     note="trusted: the symbolic treatment of HMAC and the TLS exporter; quic-go; the harness attacker's independent implementation of the proof formula")
 
+CHECKS["C09"] = dict(
+    category="model_checking", design_ref="5.5",
+    technique="TLA+ spec ConnRace.tla (per-path client/server handshake completion, result channel, cancel, accept queue, abandoned connections, authentication at both ends) model-checked exhaustively with TLC incl. a liveness property; TLC behaviours are replayed into the real ProbeAndDial (goroutines gated at the ice.dial.done hook, census at a real listener) and into the real `thru join` binary driven by a scripted host over the real thruserv",
+    text="TLC explores every interleaving of the client-side and server-side completions of up to three parallel handshakes, the offers to the result channel, the caller's take, cancellations, the acceptor's choice and the arrival of closes, and checks that the dialer keeps exactly one connection, that both ends authenticate on the same connection and that the acceptor never gives up while the dialer holds a connection (the pinned commit's two behaviours are refuted as controls). Each distinct dialing schedule is enforced on the real ProbeAndDial and the listener's open connections are compared with the returned one; each distinct server-visible order is played against the real receiver binary, whose hook trace shows the connection it ends up on.",
+    note="trusted: quic-go; the gate placement (after the client handshake); the scripted host's faithfulness to what a racing dialer does (connect, abandon with race_lost, authenticate on the kept connection)")
+
 CHECKS["C13"] = dict(
     category="exploration", design_ref="5.8",
     technique="TLA+ spec Scan.tla (universe forest, ordinal-prefix rule and walk transcribed as set comprehensions) enumerated exhaustively with TLC; the real ScanPaths and buildPathResolver run on every enumerated path list over the materialised forest and are compared with the spec's expected manifest and an independent oracle",
@@ -115,7 +121,7 @@ CHECKS["C16"] = dict(
 
 NOT_APPLICABLE = {}
 
-HOOK_COMMITS = ["6b59734", "6335744"]
+HOOK_COMMITS = ["6b59734", "6335744", "5382be1"]
 
 
 def main():
